@@ -21,6 +21,19 @@ CLAIMED = {
             'are resolved by name through the context registries and class methods (unresolved calls '
             'are counted in the evidence and assumed not to touch the precision).',
             'DESIGN.md section 2, Engine A'),
+    'C05': ('G-hash-range',
+            'static analysis: integer interval analysis (with excluded points) of the hash kernels '
+            'for both CPython word sizes, plus structural dispatch/conversion rules',
+            'Proves from the source that every value the emulated hash kernels return lies in '
+            'CPython\'s signed hash range with -1 mapped to -2 (necessary for hash(x)==hash(y) '
+            'whenever x==y across mpf/mpc/int/float/complex, since CPython re-hashes out-of-range '
+            'results), that the complex hash is composed as the built-in one, that eq/hash are '
+            'paired, that every comparison path converts ints/floats exactly and dispatches each '
+            'operator to the like-named exact kernel with a nan guard.  Clause of the property: the '
+            'bit-level arithmetic of mpf_cmp is not decided.',
+            'CPython hash constants are the documented ones (both 64- and 32-bit configurations are '
+            'analysed); only the Python-3 branch of the kernels is analysed.',
+            'DESIGN.md section 2, Engine G'),
     'C16': ('F-order-abs',
             'static analysis: abstract interpretation of the predicates\' AST over the finite domain '
             'of endpoint orderings (exhaustive), plus dispatch-table rules',
